@@ -28,7 +28,7 @@ for pid in ids:
         evidence_file='/verif/evidence/%s.json' % pid,
         replay_cmd_template='./vcheck replay {path}',
         engine='contracts',
-        level_claimed=dict(category=s.get('level', 'proof'), text=s.get('level_text', s.get('explanation', '')), design_ref='DESIGN.md section 3/' + pid),
+        level_claimed=dict(category=s.get('level', 'proof'), text=s.get('level_text', s.get('explanation', '')), design_ref='DESIGN.md section 5/' + pid),
         level_note=' | '.join(s.get('assumptions', []) + (['BOUNDED part: ' + s['bounded_note']] if s.get('bounded_note') else [])
                               + ['NOT covered: ' + x for x in s.get('not_covered', [])]),
         technique=s.get('technique', 'contract-based deductive verification: ' + ' + '.join(engines)),
